@@ -158,6 +158,19 @@ func famExpand(t *testing.T) {
 		res["grpc_status"] = status.Code(err).String()
 		if err == nil {
 			res["grpc"] = fromProtoTree(resp.Tree)
+			// the same message decoded by the client library function
+			func() {
+				defer func() {
+					if p := recover(); p != nil {
+						res["grpc_client_err"] = fmt.Sprint(p)
+					}
+				}()
+				if resp.Tree != nil {
+					res["grpc_client"] = fromAPITree(ketoapi.TreeFromProto[*ketoapi.RelationTuple](resp.Tree))
+				} else {
+					res["grpc_client"] = &xtree{T: "nil"}
+				}
+			}()
 		}
 		// check decisions for the users of the universe (rewrite-free namespace, depth not binding)
 		if c.Wide == 0 {
